@@ -6,6 +6,7 @@ Clauses
                     with integer coefficients < 64 is determined by its value)
   C01.prop          get_kemeny_score == oracle K on datasets (multi-ranking, incomplete, empty rankings, supersets)
   C01.prop.lazy     Consensus.kemeny_score (lazy path) == oracle K
+  C01.prop.history / C01.refuse.history   the same, for one factory object reused over a sequence of calls on temporaries
   C01.refuse        candidate lacking a dataset element -> InvalidRankingsForComputingDistance, never a number
 """
 import random
@@ -33,6 +34,9 @@ def gen_cases(tier, seed):
     for n in range(1, 4):
         for c in D.complete_rankings(n + 1):
             yield {"kind": "pairs", "n": n, "cand": c}
+    for i in range(40 if tier == "quick" else 400):
+        yield {"kind": "sequence", "seed": seed * 1000 + i, "steps": 25,
+               "scheme": D.SCHEMES_QUICK[i % len(D.SCHEMES_QUICK)]}
     rng = random.Random(seed * 7919 + 1)
     count = 300 if tier == "quick" else 5000
     schemes = D.SCHEMES_QUICK if tier == "quick" else D.SCHEMES_ALL
@@ -56,7 +60,39 @@ def gen_cases(tier, seed):
                    "scheme": schemes[i % len(schemes)], "namekind": kind}
 
 
+def _check_sequence(case):
+    """history independence: ONE factory scores a sequence of temporaries (candidates freed between calls)"""
+    from bounded import adapt as A
+    from corankco.kemeny_score_computation import KemenyComputingFactory, InvalidRankingsForComputingDistance
+    rng = random.Random(case["seed"])
+    scheme = case["scheme"]
+    kcf = KemenyComputingFactory(A.mk_scheme(scheme))
+    fails, evals = [], 0
+    for step in range(case["steps"]):
+        d = D.random_dataset(rng, 4, 3)
+        u = D.universe_of(d)
+        full = rng.random() < 0.8 or len(u) < 2
+        cand = D.random_ranking(rng, list(range(max(u) + 1)), complete=True)
+        if not full:
+            drop = rng.choice(u)
+            cand = [b for b in ([x for x in bb if x != drop] for bb in cand) if b]
+        evals += 1
+        try:
+            got = float(kcf.get_kemeny_score(A.mk_ranking(cand), A.mk_dataset(d)))     # temporaries
+        except InvalidRankingsForComputingDistance:
+            got = None
+        expect = O.kemeny(cand, d, scheme[0], scheme[1]) if full else None
+        if got != expect:
+            fails.append({"clause": "C01.prop.history" if full else "C01.refuse.history",
+                          "site": "get_kemeny_score, one factory reused over a sequence of calls",
+                          "detail": {"step": step, "rankings": d, "cand": cand, "got": got, "expected": expect}})
+            break
+    return {"fails": fails, "key": "seq|%s|%s" % (case["seed"], scheme), "evals": evals, "sample": case}
+
+
 def check_case(case):
+    if case["kind"] == "sequence":
+        return _check_sequence(case)
     from bounded import adapt as A
     from corankco.kemeny_score_computation import KemenyComputingFactory, InvalidRankingsForComputingDistance
     from corankco.consensus import Consensus
